@@ -7,8 +7,8 @@ PID = 'C12'
 GC_MENU = [None, ('0.5', '0.5'), ('0.25', '0.75'), ('0.4', '0.6'), ('0.3', '0.5'), ('0', '1'), ('0.8', '1.0'),
            ('0.6', '0.4'), ('0.1', '0.3')]
 GC_GRID = ['0', '0.1', '0.2', '0.25', '0.3', '0.4', '0.5', '0.6', '0.7', '0.75', '0.8', '0.9', '1']
-MOTIFS = [None, [], ['A'], ['AC'], ['GC'], ['GAT'], ['ACG', 'TT'], ['ACGT'], ['AATT', 'G']]
-FOREIGN = ['N', 'a', ' ', 'U', 'é']
+MOTIFS = [None, [], ['A'], ['AC'], ['GC'], ['GAT'], ['ACG', 'TT'], ['ACGT'], ['AATT', 'G'], ['AC', 'GT'], ['CTG', 'CAG', 'A']]
+FOREIGN = ['N', 'a', ' ', 'U', 'é', '\n', '\t']
 
 
 def configs(quick):
@@ -147,6 +147,54 @@ def check_gc_wide(r, k, lo, hi, n):
         r.ctr['true_verdicts' if exp else 'false_verdicts'] += 1
 
 
+def check_huge_window(r, k, lo, hi):
+    """Windows of 100-256 nucleotides: G/C counts beyond what 8-bit arithmetic holds."""
+    cfg = (k, None, (lo, hi), None)
+    case0 = {'cfg': [k, None, [lo, hi], None], 'huge': True}
+    st, f, _ = brun(make_filter, cfg)
+    if st != 'ok':
+        r.v('C12|constructor|rejects-legal-configuration', 'huge', dict(case0, strings=[]), 'accepted', f)
+        return
+    c = O.compile_cfg(cfg)
+    r.states += 1
+    r.nontriv += 1
+    from math import floor, ceil
+    from fractions import Fraction
+    marks = sorted({0, 1, k // 2, k - 1, k, 127, 128, 129, floor(Fraction(lo) * k), ceil(Fraction(lo) * k), floor(Fraction(hi) * k), ceil(Fraction(hi) * k),
+                    floor(Fraction(hi) * k) + 1, max(ceil(Fraction(lo) * k) - 1, 0)})
+    for g in marks:
+        if not 0 <= g <= k:
+            continue
+        for L in (k - 1, k, k + 1, k + 7):
+            for shape in ('block', 'spread', 'tail'):
+                n_g = min(g, L)
+                if shape == 'block':
+                    s = 'G' * n_g + 'A' * (L - n_g)
+                elif shape == 'tail':
+                    s = 'T' * (L - n_g) + 'C' * n_g
+                else:
+                    s = ''.join('C' if (i * n_g) // max(L, 1) != ((i + 1) * n_g) // max(L, 1) else 'A' for i in range(L))
+                exp = O.seq_ok_c(c, s)
+                st, got, _ = brun(f.valid, s, only_last=False)
+                st2, last, _ = brun(f.valid, s)
+                r.trans += 2
+                r.evals += 1
+                if st != 'ok' or bool(got) != exp:
+                    r.v(sig_of(cfg, s, 'whole-sequence-verdict|huge-window'), 'huge', dict(case0, strings=[s]), exp, got if st == 'ok' else repr(got))
+                e2 = O.seq_ok_c(c, s[-k:])
+                if st2 != 'ok' or bool(last) != e2:
+                    r.v(sig_of(cfg, s, 'last-window-verdict|huge-window'), 'huge', dict(case0, strings=[s]), e2, last if st2 == 'ok' else repr(last))
+                r.ctr['true_verdicts' if exp else 'false_verdicts'] += 1
+    r.maxi('widest_window', k)
+
+
+def _w_huge(chunk):
+    r = core.Res()
+    for k, lo, hi in chunk:
+        check_huge_window(r, k, lo, hi)
+    return r
+
+
 def check_long_strings(r, cfg):
     """Long strings (50 nt): periodic backgrounds with a run or a motif planted at every offset."""
     k = cfg[0]
@@ -229,6 +277,10 @@ def check_case(r, kind, case):
     if kind == 'wide':
         c = case['cfg']
         check_gc_wide(r, c[0], c[2][0], c[2][1], max([len(x) for x in case.get('strings') or ['']] + [c[0]]))
+        return
+    if kind == 'huge':
+        c = case['cfg']
+        check_huge_window(r, c[0], c[2][0], c[2][1])
         return
     if kind == 'grow':
         c = case['cfg']
@@ -313,6 +365,8 @@ def run(ctx):
         grow += [(k, k, None, None), (k, k, ('0', '0.7'), None), (k, k, ('0.3', '1'), None), (k, k - 1, ('0', '1'), None)]
     ctx.pmap(_w_grow, core.chunks_of(grow, 6))
     ctx.guard('growing histories', ctx.res.ctr['growing_histories'] > 100)
+    huge = [(k, lo, hi) for k in (100, 127, 128, 129, 200, 256) for lo, hi in (('0.4', '0.7'), ('0.5', '0.5'), ('0', '1'), ('0.6', '1'), ('0.64', '0.66'), ('0', '0.5'))]
+    ctx.pmap(_w_huge, core.chunks_of(huge, 3))
     ctx.pmap(_w_ctor, [0], nproc=1)
     ctx.bounds = {'strings_up_to': n, 'configurations': len(cfgs), 'k': [1, 5], 'wide_window_gc_grid': '%d (k, lo, hi) with k up to %d and 28 decimals incl. 0.29, 0.57, 0.58, 0.335, on all {A,C}-strings up to length k+2' % (len(wide), 10 if ctx.quick else 12), 'long_strings': '%d configurations at k=4,6,8,10 on 50-nt periodic strings with a run/motif planted at every offset' % len(longs)}
     ctx.rule = ('one case = (configuration, string): whole-sequence verdict against an exact-rational reference predicate, '
